@@ -47,6 +47,12 @@ CLAIMED = {
         "note": "Trusted: z3, symx, C02's affine_transform contract, real dask.delayed. Not covered: interpolation accuracy off-grid; simulate_projection/tilt series/colour.",
         "ref": "DESIGN.md §4 C14",
     },
+    "C08": {
+        "text": "All three mask implementations executed with the tilt pair symbolic on the unit circle (-90<=min<max<=90) and exact rational orientations: for every Fourier bin z3 (nlsat) decides kept <=> the physical frequency (FFT-ordered index / box length) mapped by the orientation lies between the two tilt planes; "
+                "plus DC kept, k<->-k symmetry off the Nyquist planes, no-wedge = ones, dual-axis = union, and tilt=(a,b) / model object / tilt_range=(a,b) / None dispatch of TomographyInput.",
+        "note": "Trusted: z3, symx, SymRotation, unit-circle angle algebra. Bounds: box shapes from {1..4}^3 (8 quick) / {1..5}^3 (125 thorough), 6 / 30 exact rational orientations. Assumption A-C08: sign convention of a positive tilt angle as used by all three implementations. Symmetry is not required on the Nyquist plane of even axes (the geometric rule itself is asymmetric there).",
+        "ref": "DESIGN.md §4 C08",
+    },
     "C10": {
         "text": "(i) lazily declared shapes: the shape construct_landscape declares (real code on stand-ins) is proved equal to the shape the real model.landscape() returns for ZNCC/NCC/PCC/FSC with and without up-sampling, max_shifts symbolic on one axis of a 6^3 box; loading tasks declare the requested box. "
                 "(ii) thread interleavings of the shared TemplateMaskCache: get() is translated from CPython bytecode to shared-dict steps and all schedules of 2 and 3 threads (switch between any two bytecodes) are bounded-model-checked by z3 (QF_BV): no thread raises, every thread gets the stored value; counterexample schedules are replayed with an opcode-level deterministic scheduler.",
